@@ -359,7 +359,7 @@ func TestC14(t *testing.T) {
 	run.Assume("the genuine transmission's own effect is measured on the same victim immediately before the variants (positive control); membership claims are idempotent so the reference effect is re-measured after the first application")
 	cfgs := []hostCfg{{"", 1, true, false, false}, {"c14", 1, true, false, false}, {"c14", 0, true, false, false}, {"", 0, true, false, false}, {"c14", 1, true, false, true}}
 	k := 0
-	for rep := 0; rep < run.Pick(1, 10); rep++ {
+	for rep := 0; rep < run.Pick(1, 80); rep++ {
 		for ci, cfg := range cfgs {
 			for g := 0; g < 3; g++ {
 				k++
